@@ -31,6 +31,8 @@ IdxNone == {}
 ScalSet == { <<2, 1>>, <<-1, 2>> }
 ScalOne == { <<2, 1>> }
 NoScal == {}
+CmpSet == { <<1, 1>>, <<3, 1>>, <<-2, 1>>, <<1, 2>>, <<5, 1>>, <<6, 1>> }
+ActsCmp == {"cmp", "bin", "getitem", "unary"}
 RsCat == { <<4>>, <<2, 2>>, <<6>>, <<3, 2>>, <<1, 2>>, <<2, 1>>, <<2, 3>> }
 NoRs == {}
 
